@@ -563,11 +563,12 @@ class SecopClient(ProxyClient):
         if shutdown:
             self._shutdown.set()
             self._set_state(False, 'shutdown')
-            if self._connthread:
-                if self._connthread == current_thread():
+            connthread = self._connthread  # the thread resets the attribute itself when it ends
+            if connthread:
+                if connthread == current_thread():
                     return
                 # wait for connection thread stopped
-                self._connthread.join()
+                connthread.join()
                 self._connthread = None
         self.disconnect_time = time.time()
         try:  # make sure txq does not block
